@@ -81,8 +81,11 @@ def make_cells(dp, mp, rp):
     t1 = dp.Table((dp.ListDimension(3),), mpe, rpe)
     t2 = dp.Table((dp.DictDimension(), dp.ListDimension(2)), mpe, rpe)
     t3 = dp.Table((dp.ListDimension(2), dp.DictDimension(), dp.DictDimension()), mpe, rpe)
+    t4 = dp.Table((dp.ListDimension(2), dp.ListDimension(2), dp.ListDimension(2)), mpe, rpe)
+    t5 = dp.Table((dp.ListDimension(2), dp.ListDimension(3), dp.DictDimension()), mpe, rpe)
     return [("table1[1]", t1, (1,)), ("table2['k'][0]", t2, ("k", 0)),
-            ("table3[1]['x'][('y',2)]", t3, (1, "x", ("y", 2)))]
+            ("table3[1]['x'][('y',2)]", t3, (1, "x", ("y", 2))),
+            ("table4[0][1][1]", t4, (0, 1, 1)), ("table5[1][0]['z']", t5, (1, 0, "z"))]
 
 
 def cell_proxy(table, key):
@@ -159,14 +162,15 @@ def _replay_histories(bounds):
                             else "observers disagree: " + "; ".join(bad))
                     bad_cases.append((what, case))
                 if table is not None and hist:
-                    last = tkey[-1]
-                    other_key = tkey[:-1] + ((last + 1) % 2 if isinstance(last, int) else "other",)
-                    ogot, _ = observe(cell_proxy(table, other_key), inf)
-                    if ogot != worst and len(bad_cases) < 50:
-                        bad_cases.append((f"never-written cell of {name} reads {dict(ogot)}",
-                                          {"engine": "E2-history", "structure": name, "mp": mp, "rp": rp,
-                                           "history": [list(c) for c in hist],
-                                           "observed_neighbour": tlaval.to_py(ogot)}))
+                    # every cell that differs from the written one in one coordinate was never written
+                    for pos, part in enumerate(tkey):
+                        other_key = tkey[:pos] + ((part + 1) % 2 if isinstance(part, int) else "other",) + tkey[pos + 1:]
+                        ogot, _ = observe(cell_proxy(table, other_key), inf)
+                        if ogot != worst and len(bad_cases) < 50:
+                            bad_cases.append((f"never-written cell {list(other_key)} of {name} reads {dict(ogot)}",
+                                              {"engine": "E2-history", "structure": name, "mp": mp, "rp": rp,
+                                               "history": [list(c) for c in hist],
+                                               "observed_neighbour": tlaval.to_py(ogot)}))
     return nrep, bad_cases, keys
 
 
@@ -174,7 +178,7 @@ def run(ctx):
     dp, inf = _api()
     thorough = ctx.tier == "thorough"
     ctx.rule = ("E1: all reachable states of DPEntry/DPCombine; E2: one case per contract transition, "
-                "per history (x every batching x 4 structures) and per combination; E3: random histories. "
+                "per history (x every batching x 6 structures) and per combination; E3: random histories. "
                 "A case is non-trivial when at least one candidate carries a tag and the history has >= 2 candidates "
                 "or the pre-state already holds an offered candidate; distinct = distinct (policies, pre-state/history) keys.")
     ctx.assumptions += [
@@ -577,4 +581,17 @@ def replay(path):
     for n, clauses in verdicts:
         print(f"VIOLATION property=C16 replay={path}")
         print(f"  {index[n]} fails {clauses}")
-    return 1 if verdicts else 0
+    bad = 0
+    if case.get("engine") == "E2-history":   # the cells next to the written one stay never-written (DPEntry!NeverWritten)
+        worst = tlaval.Rec(val=INF if mp == "MIN" else -INF, tags=frozenset())
+        for name, table_, tkey in make_cells(dp, mp, rp):
+            for c in hist:
+                cell_proxy(table_, tkey).update(cand(dp, inf, c))
+            for pos, part in enumerate(tkey):
+                other_key = tkey[:pos] + ((part + 1) % 2 if isinstance(part, int) else "other",) + tkey[pos + 1:]
+                ogot, _ = observe(cell_proxy(table_, other_key), inf)
+                if hist and ogot != worst:
+                    bad += 1
+                    print(f"VIOLATION property=C16 replay={path}")
+                    print(f"  never-written cell {list(other_key)} of {name} reads {dict(ogot)} after {hist} went to {list(tkey)}")
+    return 1 if verdicts or bad else 0
